@@ -41,6 +41,7 @@ type c16KBState struct {
 	active map[string]string // rule name -> text id
 	dirty  bool              // a build was rejected here
 	exists bool
+	stored int // checkpoint (store without load): 0 none, 1 taken and nothing changed since, 2 taken and the knowledge base changed afterwards
 }
 
 type c16State struct{ kbs []c16KBState }
@@ -48,7 +49,7 @@ type c16State struct{ kbs []c16KBState }
 func (s *c16State) clone() *c16State {
 	c := &c16State{}
 	for _, k := range s.kbs {
-		n := c16KBState{active: map[string]string{}, dirty: k.dirty, exists: k.exists}
+		n := c16KBState{active: map[string]string{}, dirty: k.dirty, exists: k.exists, stored: k.stored}
 		for a, b := range k.active {
 			n.active[a] = b
 		}
@@ -65,7 +66,7 @@ func (s *c16State) key() string {
 			a = append(a, n+"="+t)
 		}
 		sort.Strings(a)
-		parts = append(parts, fmt.Sprintf("%v/%v/%s", k.exists, k.dirty, strings.Join(a, ",")))
+		parts = append(parts, fmt.Sprintf("%v/%v/%v/%s", k.exists, k.dirty, k.stored, strings.Join(a, ",")))
 	}
 	return strings.Join(parts, " | ")
 }
@@ -85,9 +86,19 @@ func (s *c16State) apply(o c16Op) (ns *c16State, wantErr bool) {
 				continue
 			}
 			k.active[t.name] = id
+			if k.stored == 1 {
+				k.stored = 2
+			}
 		}
 	case "removelib":
+		if _, ok := k.active[o.arg]; ok && k.stored == 1 {
+			k.stored = 2
+		}
 		delete(k.active, o.arg)
+	case "store":
+		k.stored = 1
+	case "storeload":
+		k.stored = 0 // the library entry is replaced by the loaded object
 	}
 	return
 }
@@ -174,6 +185,11 @@ func c16Replay(keys []c16KBKey, hist []c16Op) (*ast.KnowledgeLibrary, []error, e
 			}()
 		case "removelib":
 			lib.RemoveRuleEntry(o.arg, kk.name, kk.ver)
+		case "store":
+			var buf bytes.Buffer
+			if err := lib.StoreKnowledgeBaseToWriter(&buf, kk.name, kk.ver); err != nil {
+				return lib, errs, fmt.Errorf("store: %w", err)
+			}
 		case "storeload":
 			var buf bytes.Buffer
 			if err := lib.StoreKnowledgeBaseToWriter(&buf, kk.name, kk.ver); err != nil {
@@ -223,6 +239,7 @@ func C16(rep *ev.Reporter, tier string) {
 				ops = append(ops, c16Op{"removelib", kb, n})
 			}
 			ops = append(ops, c16Op{"storeload", kb, ""})
+			ops = append(ops, c16Op{"store", kb, ""}) // checkpoint: store without loading
 		}
 		init := &c16State{}
 		for range sp.keys {
@@ -244,7 +261,7 @@ func C16(rep *ev.Reporter, tier string) {
 			for _, n := range frontier {
 				for _, o := range ops {
 					k := n.st.kbs[o.kb]
-					if (o.kind == "storeload" || o.kind == "removelib") && !k.exists {
+					if (o.kind == "storeload" || o.kind == "removelib" || o.kind == "store") && !k.exists {
 						continue
 					}
 					jobs = append(jobs, job{n, o})
@@ -310,6 +327,28 @@ func C16(rep *ev.Reporter, tier string) {
 							report("C16:behaviour-differs:after-"+cls, fmt.Sprintf("knowledge base %s/%s (model: active %v) behaves\n   %s\n  but its active rule texts built alone behave\n   %s", kk.name, kk.ver, c16ActiveIDs(ks, ""), got, want), hist, sp.name)
 							continue
 						}
+						// removal while the instance is executing (from a listener callback at the start of
+						// cycle 1 / cycle 2): from then on the rule is neither evaluated nor fired
+						for name := range ks.active {
+							for _, at := range []string{"B1", "B2"} {
+								ix, _ := lib.NewKnowledgeBaseInstance(kk.name, kk.ver)
+								w := c16World()
+								removed := false
+								var after []string
+								hx.RunOn(&hx.Program{ByName: map[string]*grl.Rule{}}, ix, w, hx.RunOpts{MaxCycle: 6, NoSnapshots: true, OnEvent: func(e string) {
+									if removed && (strings.HasSuffix(e, ":"+name) || strings.Contains(e, ":"+name+":") || strings.Contains(e, "Deleted_"+name)) {
+										after = append(after, e)
+									}
+									if e == at && !removed {
+										ix.RemoveRuleEntry(name)
+										removed = true
+									}
+								}}, nil)
+								if len(after) > 0 {
+									report("C16:rule-removed-during-execute-still-evaluated-or-fired:"+at, fmt.Sprintf("RemoveRuleEntry(%s) was called on the running instance at %s, yet these events followed: %v", name, at, after), hist, sp.name)
+								}
+							}
+						}
 						// instance-level removal affects only that instance
 						for name := range ks.active {
 							i1, _ := lib.NewKnowledgeBaseInstance(kk.name, kk.ver)
@@ -330,6 +369,7 @@ func C16(rep *ev.Reporter, tier string) {
 					return vs
 				}
 				vs := checkWith(sp.keys)
+
 				if len(vs) > 0 && sp.name == "separator-collision" {
 					// the same history on two knowledge bases whose keys do not collide: what also
 					// fails there is reported as such, the rest is the key collision
@@ -387,7 +427,7 @@ func C16(rep *ev.Reporter, tier string) {
 		rep.Exhaustive = false
 		rep.Coverage["caps_hit"] = "time budget"
 	}
-	rep.Coverage["rule"] = fmt.Sprintf("breadth-first search over operation histories (depth <= %d) on one library with two knowledge bases, in two spaces: (A,1)/(A,2) and the separator-collision pair (a:b,c)/(a,b:c). Operations per knowledge base: build X1, build X2 (same name, other body), build Y, build 'X1 X2' in one resource, library-level RemoveRuleEntry(X|Y), store + load with overwrite. States are deduplicated on the MODEL state (active rules per knowledge base + whether a build was rejected there); every transition replays its history on a fresh library with the real builder/serializer. After every step: build error iff the model says duplicate; for every knowledge base a fresh instance can be created and its FetchMatchingRules + Execute observation equals that of the model's active rule texts built alone; instance-level removal changes only that instance. states/transitions are those of the library model; every transition is non-trivial (it is validated against the implementation).", depth)
+	rep.Coverage["rule"] = fmt.Sprintf("breadth-first search over operation histories (depth <= %d) on one library with two knowledge bases, in two spaces: (A,1)/(A,2) and the separator-collision pair (a:b,c)/(a,b:c). Operations per knowledge base: build X1, build X2 (same name, other body), build Y, build 'X1 X2' in one resource, library-level RemoveRuleEntry(X|Y), store + load with overwrite, store alone (checkpoint). States are deduplicated on the MODEL state (active rules per knowledge base + whether a build was rejected there + whether a checkpoint store was taken and whether the knowledge base changed after it); every transition replays its history on a fresh library with the real builder/serializer. After every step: build error iff the model says duplicate; for every knowledge base a fresh instance can be created and its FetchMatchingRules + Execute observation equals that of the model's active rule texts built alone; instance-level removal changes only that instance; a rule removed from the running instance in a listener callback (cycle 1 or 2) is neither evaluated nor fired from then on. states/transitions are those of the library model; every transition is non-trivial (it is validated against the implementation).", depth)
 }
 
 // c16HistClass names the operation kinds that matter for a signature: the last op and whether a
